@@ -137,6 +137,9 @@ class Model:
             base = ex.ev(tgt['inner'][0], env)
             if isinstance(base, Ptr):
                 base = base.target
+            if isinstance(base, Item) and tgt['name'] in base.f:
+                base.f[tgt['name']] = val          # a store into a field of a cell_item the path holds (struct semantics)
+                return val
             if isinstance(base, Rec) and base.kind == 'config' and tgt['name'] in base.f:
                 # a store through the config pointer: performed, and seen by the frame obligation at the end of the path
                 base.f[tgt['name']] = val
